@@ -64,9 +64,14 @@ def reparse_if_needed(student_code=None, report=MAIN_REPORT):
         dict: Returns the Cait Report
     """
     cait = report[TOOL_NAME]
+    # The outcome of each cached parse; 'success' and 'error' describe the
+    # code being asked about, not whichever code happened to be parsed last
+    failures = cait.setdefault('failures', {})
     if student_code is not None:
         if student_code in cait['cache']:
             cait['ast'] = cait['cache'][student_code]
+            cait['error'] = failures.get(student_code)
+            cait['success'] = cait['error'] is None
             return cait
         else:
             student_ast = _parse_source(student_code, report=report)
@@ -75,13 +80,18 @@ def reparse_if_needed(student_code=None, report=MAIN_REPORT):
         # Have we already parsed this code?
         if student_code in cait['cache']:
             cait['ast'] = cait['cache'][student_code]
+            cait['error'] = failures.get(student_code)
+            cait['success'] = cait['error'] is None
             return cait
         # Try to steal parse from Source module, if available
         if report[SOURCE_TOOL_NAME]['success']:
             student_ast = report[SOURCE_TOOL_NAME]['ast']
+            cait['success'], cait['error'] = True, None
         else:
             student_ast = _parse_source(student_code, report=report)
     cait['ast'] = cait['cache'][student_code] = CaitNode(student_ast, report=report)
+    if not cait['success']:
+        failures[student_code] = cait['error']
     return cait
 
 
